@@ -15,7 +15,8 @@ for d in sorted(glob.glob(os.path.join(V, "seeded", "*"))):
     sid = os.path.basename(d)
     files = sorted(set(re.findall(r"^\+\+\+ b/(\S+)", open(os.path.join(d, "patch.diff")).read(), re.M)))
     det = m.get("detected_by", "")
-    status = "caught after strengthening" if ("AFTER" in det or "after strengthening" in det or "missed before" in det) else "caught"
+    first = det.split(";")[0]  # the first clause names the check that caught it and whether it had to be strengthened for that
+    status = "caught after strengthening" if ("AFTER" in first or "after strengthening" in first or "missed before" in first) else "caught"
     if det.lower().startswith("not caught") or det.lower().startswith("missed"):
         status = "NOT caught"
     rows.append((sid, m.get("property", ""), ", ".join(files), m.get("needs_to_manifest", "").replace("|", "/"), status, det.replace("|", "/")))
